@@ -311,7 +311,17 @@ impl<'a> crate::fdl::FdlApplication for DpMaster<'a> {
                 }
             };
 
-            if let Some((handle, peripheral)) = self.peripherals.get_at_index_mut(index) {
+            let Some((handle, peripheral)) = self.peripherals.get_at_index_mut(index) else {
+                // No peripheral at or behind this index (e.g. an empty peripheral set): Nothing to
+                // do in this cycle.
+                self.state.cycle_state = CycleState::DataExchange(0);
+                self.state.last_events = DpEvents {
+                    cycle_completed: true,
+                    peripheral: peripheral_event,
+                };
+                return None;
+            };
+            {
                 let res = peripheral.transmit_telegram(now, &self.state, fdl, tx, high_prio_only);
 
                 match res {
